@@ -955,6 +955,12 @@ def c13(tier, seed):
     rnd = random.Random(seed * 7919 + 13)
     vectors = covering_array(OPTION_DOMAINS, 2 if tier == "quick" else 3, rnd)
     if tier == "thorough": vectors = vectors[:220]
+    # the options that meet inside the commit/purge code are additionally crossed completely (finding F16 needed a 4-way combination that a pairwise array only hits by luck)
+    for pd in ("0", "10"):
+        for dec in ("0", "1"):
+            for ec in ("0", "1"):
+                for backing in ({"MIMALLOC_ARENA_EAGER_COMMIT": "1"}, {"MIMALLOC_ARENA_EAGER_COMMIT": "0"}, {"MIMALLOC_DISALLOW_ARENA_ALLOC": "1"}):
+                    vectors.append(dict({"MIMALLOC_PURGE_DELAY": pd, "MIMALLOC_PURGE_DECOMMITS": dec, "MIMALLOC_EAGER_COMMIT": ec}, **backing))
     profiles = ["general", "aligned", "zero", "realloc", "walk"]
     ops = tier_n(tier, 2500, 6000)
     cases = []; idx = 0
@@ -985,7 +991,8 @@ def c13(tier, seed):
     cov["virtual_clock_ms_advanced"] = core.sum_field(cases, "clock_ms")
     cov["profiles"] = {p: sum(1 for c in cases if c.meta["profile"] == p) for p in profiles}
     return finish(prop, tier, seed, "exploration", v, cases, t0,
-                  "a case = one option vector of a pairwise (thorough: 3-wise) covering array over 13 commit/purge/arena options x one history profile of C01/C03/C04/C05/C12 x one build variant, with the "
+                  "a case = one option vector (a pairwise (thorough: 3-wise) covering array over 13 commit/purge/arena options, plus the complete cross of purge_delay {0,10} x purge_decommits x eager_commit x "
+                  "{arena committed eagerly, arena committed lazily, no arena}) x one history profile of C01/C03/C04/C05/C12 x one build variant, with the "
                   "virtual clock advanced randomly between operations (so delayed purges fire) and every madvise(DONTNEED/FREE)/mprotect(PROT_NONE) range checked against the live blocks of the shadow model "
                   "before it is executed (debug builds: decommit really revokes access, a touch of a decommitted live page faults); non-trivial = >=500 allocations and >=1 purge range checked; "
                   "distinct = (variant, option vector, op-list hash)",
